@@ -352,6 +352,10 @@ func hasDeepCopyMethod(input types.Type) bool {
 		if res.Len() != 0 {
 			continue
 		}
+		if named, isNamed := input.(*types.Named); isNamed && !derive.TakesOther(sig.Params().At(0).Type(), named) {
+			// not a copy into another value of the type: DeepCopy(depth int)
+			continue
+		}
 		return true
 	}
 	return false
